@@ -54,6 +54,15 @@ def parseCreate (widx salt slots wits : String) : Option Create := do
   let wits ← parseWitnesses wits
   pure { bytecodeWitnessIndex := widx, salt, storageSlots := slots, witnesses := wits }
 
+/-- `C:<contract id>:<state root>` = `Output::ContractCreated`, `O` = an output the other arms let pass; `;`-separated -/
+def parseOutputs (s : String) : Option (List Output) :=
+  if s == "-" then some []
+  else (s.splitOn ";").mapM (fun o =>
+    match o.splitOn ":" with
+    | ["O"] => some .other
+    | ["C", cid, sr] => do let cid ← ofHex cid; let sr ← ofHex sr; pure (.contractCreated cid sr)
+    | _ => none)
+
 def fmtMeta : Except Err CreateMetadata → String
   | .ok m => s!"{toHex m.contractId},{toHex m.contractRoot},{toHex m.stateRoot}"
   | .error e => "err:" ++ e.name
@@ -118,6 +127,19 @@ def step (st : Storage) : List String → Storage × String
         | .ok (st', id) =>
           let code := (st'.contract id).getD []
           (st', s!"ok {toHex id} {code.length}:{toHex (H code)} {c.storageSlots.length}")
+  -- a Create with explicit outputs: the verdict of `into_checked` (precompute + the ContractCreated clause), then the deployment
+  | ["deployo", widx, salt, slots, wits, outs] =>
+    match parseCreate widx salt slots wits, parseOutputs outs with
+    | some c, some outs =>
+      match c.intoChecked H outs with
+      | .error e => (st, s!"err:{e.name} -")
+      | .ok c' =>
+        match deployInner H c' st with
+        | .error e => (st, s!"accept err:{e.name}")
+        | .ok (st', id) =>
+          let code := (st'.contract id).getD []
+          (st', s!"accept ok {toHex id} {code.length}:{toHex (H code)} {c.storageSlots.length}")
+    | _, _ => (st, "bad-op")
   | ["croo", inputs, id] =>
     match parseList inputs, ofHex id with
     | some inputs, some id => (st, fmt (codeRoot H inputs st id))
